@@ -1,4 +1,5 @@
 import CollectionsC.Proofs.ArrayMem
+import CollectionsC.Proofs.ArrayZip
 import CollectionsC.Proofs.Stack
 import CollectionsC.Properties.C01
 /-! # C08 (array and stack part) — a refused allocation is atomic
@@ -79,6 +80,37 @@ theorem zipAdd_atomic (a1 a2 : Arr) (it : ArrIter) (z : Spec.Seq.ZipCursor) (x y
   rcases sp with ⟨ok, _⟩ | ⟨e, b1, b2, _, _, _, _, b3, b4, _⟩
   · exact absurd ok h
   · exact ⟨e, b1, b2, b3, b4, sl, sf⟩
+
+/-- **`cc_array_zip_iter_add`: both elements or none, for every cursor value** (A11) — no relation
+between the cursor and the two arrays is assumed.  Either the call succeeds (one element more in each
+array, cursor advanced) or it reports an error and both contents and the cursor are what they were
+(a buffer may have been re-allocated: capacity grown, content and size kept); the invariants hold,
+the ledger is balanced and nothing faults -/
+theorem zipAdd_all_or_nothing (a1 a2 : Arr) (it : ArrIter) (x y : Nat) (m : Mem) (h1 : a1.Inv) (h2 : a2.Inv) :
+    (((Arr.zipAdd a1 a2 it x y m).1 = .ok ∧ (Arr.zipAdd a1 a2 it x y m).2.1.size = a1.size + 1 ∧
+        (Arr.zipAdd a1 a2 it x y m).2.2.1.size = a2.size + 1 ∧
+        (Arr.zipAdd a1 a2 it x y m).2.2.2.1 = { it with index := it.index + 1 }) ∨
+     ((Arr.zipAdd a1 a2 it x y m).1 ≠ .ok ∧ (Arr.zipAdd a1 a2 it x y m).2.1.abs = a1.abs ∧
+        (Arr.zipAdd a1 a2 it x y m).2.2.1.abs = a2.abs ∧ (Arr.zipAdd a1 a2 it x y m).2.2.2.1 = it)) ∧
+    (Arr.zipAdd a1 a2 it x y m).2.1.Inv ∧ (Arr.zipAdd a1 a2 it x y m).2.2.1.Inv ∧
+    (Arr.zipAdd a1 a2 it x y m).2.2.2.2.live = m.live ∧ (Arr.zipAdd a1 a2 it x y m).2.2.2.2.fault = m.fault :=
+  Arr.zipAdd_all_or_nothing a1 a2 it x y m h1 h2
+
+/-- **the same array on both sides of the zip iterator** (`cc_array_zip_iter_init(&it, a, a)`; model
+`Arr.zipAdd1`: one array state threaded through both insertions): two elements or none.  With exactly
+one free slot the second insertion grows the buffer on its own; when that growth step is refused (or
+hits the capacity limit) the first element is taken out again and the failure reported (A11) — content
+and size as before, `size ≤ capacity` in every case -/
+theorem zipAdd_same_array_all_or_nothing (a : Arr) (it : ArrIter) (x y : Nat) (m : Mem) (hinv : a.Inv) :
+    (((Arr.zipAdd1 a it x y m).1 = .ok ∧
+        (Arr.zipAdd1 a it x y m).2.1.abs = (a.abs.insertIdx it.index x).insertIdx it.index y ∧
+        (Arr.zipAdd1 a it x y m).2.1.size = a.size + 2 ∧
+        (Arr.zipAdd1 a it x y m).2.2.1 = { it with index := it.index + 1 }) ∨
+     ((Arr.zipAdd1 a it x y m).1 ≠ .ok ∧ (Arr.zipAdd1 a it x y m).2.1.abs = a.abs ∧
+        (Arr.zipAdd1 a it x y m).2.1.size = a.size ∧ (Arr.zipAdd1 a it x y m).2.2.1 = it)) ∧
+    (Arr.zipAdd1 a it x y m).2.1.Inv ∧
+    (Arr.zipAdd1 a it x y m).2.2.2.live = m.live ∧ (Arr.zipAdd1 a it x y m).2.2.2.fault = m.fault :=
+  Arr.zipAdd1_all_or_nothing a it x y m hinv
 
 /-- builders (`subarray`, `copy_shallow`, `copy_deep`, `filter`) and the constructor: a refusal of
 either allocator call yields `CC_ERR_ALLOC`, no object, balanced ledger (the header allocated first
@@ -234,5 +266,15 @@ example :
     let r := a.add 7 { sched := [true], live := 2 }
     a.Inv ∧ r.1 = .errAlloc ∧ r.2.1.abs = [5, 6] ∧ r.2.1.capacity = 2 ∧ r.2.2.live = 2 ∧ r.2.2.nrefused = 1 ∧
     r.2.2.fault = false ∧ ((r.2.1.add 7 r.2.2).1 = .ok ∧ (r.2.1.add 7 r.2.2).2.1.abs = [5, 6, 7]) := by decide
+
+/-! the same array on both sides, exactly one free slot (size 2, capacity 3), cursor after the first
+element: without refusal both elements go in (the second insertion grows 3 → 6); with the growth step
+refused the call reports `CC_ERR_ALLOC` and the array holds what it held -/
+example :
+    let a : Arr := Arr.mk 2 3 [10, 20, 0] (fun c => 2 * c) .conf
+    a.Inv ∧ ((Arr.zipAdd1 a { index := 1 } 7 8 {}).1, (Arr.zipAdd1 a { index := 1 } 7 8 {}).2.1.abs,
+      (Arr.zipAdd1 a { index := 1 } 7 8 {}).2.1.capacity) = (Stat.ok, [10, 8, 7, 20], 6) ∧
+    ((Arr.zipAdd1 a { index := 1 } 7 8 { sched := [true] }).1, (Arr.zipAdd1 a { index := 1 } 7 8 { sched := [true] }).2.1.abs,
+      (Arr.zipAdd1 a { index := 1 } 7 8 { sched := [true] }).2.1.size) = (Stat.errAlloc, [10, 20], 2) := by decide
 
 end CC.Properties.C08Array
